@@ -6,7 +6,7 @@ fn go<T: Lab>(op: &str, args: &[Arg]) -> Option<String> {
     Some(match (op, args) {
         ("broadcast", [Arg::A(s1, e1), Arg::A(s2, e2)]) => {
             let (a, b) = (mk::<T>(s1, e1)?, mk::<T>(s2, e2)?);
-            res_parr(&a.broadcast(&b))
+            w2(res_parr(&a.broadcast(&b)), res_parr(&okr(&a).broadcast(&b)))
         }
         ("zip", [Arg::A(s1, e1), Arg::A(s2, e2)]) => {
             let (a, b) = (mk::<T>(s1, e1)?, mk::<i64>(s2, e2)?);
